@@ -17,7 +17,7 @@ var zzErrUserClose = errors.New("zz: closed by user")
 // For bounded-wait channels (until == 0) this is required only if the closer slept less than the documented
 // grace period (10 x 100 ms).
 //
-//	closeKind: 0 plain error, 1 nil, 2 timeout net.Error, 3 wrapped net.Error, 6 io.EOF, 7 wrapped io.ErrUnexpectedEOF, 4 the parent context is cancelled
+//	closeKind: 0 plain error, 1 nil, 2 timeout net.Error, 3 wrapped net.Error, 6 io.EOF, 7 wrapped io.ErrUnexpectedEOF, 8 the sender is stalled in Writev while Close runs (bounded-wait channels), 4 the parent context is cancelled
 //	           before Close (Shutdown order), 5 concurrently with it
 func ZZ_C06_Close(q, until, nw, ww, wwOther, entries, closeKind int) {
 	tr := newZZTransport()
@@ -27,6 +27,11 @@ func ZZ_C06_Close(q, until, nw, ww, wwOther, entries, closeKind int) {
 	ch := newChannelWith(parent, pl, tr, AsyncExecutor(), 1, q, until != 0).(*channel)
 	pl.(*pipeline).channel = ch
 	g := &zzGhost{n: ww + (nw-1)*wwOther, content: "c01", sent: "c06-accepted-payload-sent-before-close"}
+	if closeKind == 8 {
+		// the sender stalls inside its first Writev for as long as Close runs (a peer that does not read): a
+		// bounded-wait Close gives up, but only after the documented grace period
+		tr.gate = make(chan struct{})
+	}
 	done := make(chan struct{}, nw)
 	for w := 0; w < nw; w++ {
 		w := w
@@ -93,6 +98,10 @@ func ZZ_C06_Close(q, until, nw, ww, wwOther, entries, closeKind int) {
 	}
 	ch.Close(closeErr)
 	vrt.Assert(!ch.IsActive(), "c06-inactive-after-close")
+	if closeKind == 8 {
+		vrt.Assert(vrt.Slept() >= 1000000000, "c06-bounded-wait-lasts-the-documented-grace-period")
+		close(tr.gate)
+	}
 	dead := vrt.Quiesce()
 	vrt.Assert(!dead, "c06-no-thread-left-blocked")
 	vrt.Assert(tr.closes == 1, "c06-transport-closed-once")
